@@ -333,10 +333,12 @@ class Main {
 class Counter(val base: int) {
   method add(x: int): int = this.base + x
   method adder(): (int) -> int = (x) -> this.base + x
+  method mix(x: int): int = Main.combine(x, this, this.base)
 }
 class Main {
   function until(f: (int) -> int, x: int): int = if x > 1000 { x } else { Main.until(f, f(f(x))) }
   function compose(f: (int) -> int, g: (int) -> int): (int) -> int = (x) -> g(f(x))
+  function combine(n: int, c: Counter, m: int): int = if n > 1000000 { 1 + Main.combine(n - 1, c, m) } else { n * 100 + c.base + m }
   function main(): unit = {
     let _ = Process.println(Str.fromInt(Main.until(Alpha.inc, 3)));
     let _ = Process.println(Str.fromInt(Main.until(Alpha.dbl, 3)));
@@ -347,9 +349,11 @@ class Main {
     let k = Main.until(Alpha.inc, 998);
     let h = Main.compose((x) -> x + k, Alpha.dbl);
     let _ = Process.println(Str.fromInt(h(1)));
+    let mixer = c.mix;
+    let _ = Process.println(Str.fromInt(mixer(7)) :: " " :: Str.fromInt(Main.until(mixer, 9)));
   }
 }"#,
-      "1001\n3072\n42\n45\n2006",
+      "1001\n3072\n42\n45\n2006\n780 98080",
       None,
     ),
     demo(
